@@ -141,6 +141,16 @@ def run(ctx, widen=False):
             e = int(log_mold_multi(N, 255, CTX))
             lines.append(f"cstr\t{e} {N}"); exp.append(vy.cps(text))
         lines.append("ucstr\t" + vy.cps(text[1:-1])); exp.append(vy.cps(uncompress_str(text[1:-1])))
+    # dictionary compression: the DP model of `øD` (the object of dict_compress_roundtrip) against the element, and the facts
+    # about the word list that the theorem takes as a hypothesis (at most 160^2 words: every code has two characters)
+    nd = 400 if thorough else 60       # (the model looks every slice up in the 23 113-word list: ~30 ms per character)
+    for sdict in dstrs[-7:] + [x for x in dstrs[:nd] if len(x) <= (32 if thorough else 18)][: (60 if thorough else 14)]:
+        lines.append("dictcomp\t" + vy.cps(sdict)); exp.append(vy.cps(optimal_compress(sdict, CTX)))
+    lines.append("dictfacts\t")
+    exp.append(f"{len(words)} {len(encoding.compression)} {dictionary.max_word_len}")
+    if not (len(words) <= len(encoding.compression) ** 2 and len(encoding.compression) == 160):
+        ctx.disagree("codec", "dictionary size", f"{len(words)} words, {len(encoding.compression)} compression characters",
+                     "dict_compress_roundtrip assumes at most 160^2 words and 160 characters")
     out = ctx.driver(lines)
     ctx.count("corr:codec", len(lines))
     for l, e, o in zip(lines, exp, out):
